@@ -208,7 +208,8 @@ class Ed25519Key(PKey):
 
         try:
             self._verifying_key.verify(data, msg.get_binary())
-        except nacl.exceptions.BadSignatureError:
+        except (nacl.exceptions.BadSignatureError, nacl.exceptions.ValueError):
+            # ValueError: the signature is not exactly 64 bytes long
             return False
         else:
             return True
